@@ -124,6 +124,12 @@ impl Session {
     /// run one operation and produce its call event
     pub fn step(&mut self, op: &Op) -> Value {
         self.rot += 1;
+        // timestamp values rotate through the tick table (epoch, pre-epoch, far future, sub-second parts)
+        let mut op_t = op.clone();
+        if op.op == "set_time" {
+            op_t.tick = self.rot % 8;
+        }
+        let op = &op_t;
         let cx = &self.cx;
         let root = &self.w.root;
         let full = !self.light;
